@@ -3,7 +3,7 @@ import itertools
 import json
 
 from harness.core import pipeline, gallina as G, values as V, ser
-from harness.payload_support.common import (FaultSpec, val_to_json, val_from_json, jnorm, version_modelled,
+from harness.payload_support.common import (FaultSpec, ObjSpec, val_to_json, val_from_json, jnorm, version_modelled,
                                             plain_json, g_params)
 
 PROP_ID = "C14"
@@ -110,6 +110,11 @@ class Main(pipeline.Stream):
         for k, (m, pi, ii, ver, resp, notify, cfg) in enumerate(prod):
             one(api="dump" if k % 3 else "dumpsloads", cfg=cfg, params=PARAMS[pi], method=m, rpcid=IDS[ii], version=ver,
                 resp=resp, notify=notify)
+        # (2b) objects that are neither containers nor primitives as `params` of a request / notification: refused like
+        # any scalar, whether or not class translation could turn them into a dict
+        for kind, m, cfg, ver, notify in itertools.product(["decimal", "enum", "bean", "set"], ["m", "a.b"], ["default", "v1", "nojc"],
+                                                           [None, 1.0, 2.0], [None, True]):
+            one(api="dump", cfg=cfg, params=ObjSpec(kind), method=m, rpcid=4, version=ver, notify=notify)
         # (3) off-list versions and configurations (correspondence only: the statement is silent)
         for ver, cfg in itertools.product(LISTED_VERSIONS + OTHER_VERSIONS, sorted(CFGS)):
             for notify in (None, True):
@@ -182,6 +187,8 @@ class Main(pipeline.Stream):
     def _params(self, p):
         if isinstance(p, FaultSpec):
             return self.J.Fault(p.code, p.msg, data=p.data)
+        if isinstance(p, ObjSpec):
+            return p.build()
         return p
 
     def run_impl(self, case):
